@@ -981,3 +981,83 @@ def _independent_verifications_rule(ctx, prog):
     if n_sec == 0:
         ctx.bad(R, "verify_file_in_archive|no-sections", f.where, "no SFILE_VERIFY_* guarded section found", "shape changed")
 
+
+def xval(n, env, depth=0):
+    """value of an expression that may be an enum variant: returns an int, or the variant's name (str) for a path to / a
+    constructor call of a variant.  Understands `match` on such values (constructor, literal, or- and wildcard patterns), calls and
+    method calls of functions listed in env["__fns__"] (inlined, `self` bound to the receiver's value), associated integer
+    constants through env["__consts__"], and integer arithmetic through _ival."""
+    n = hirq.strip(n)
+    k = n.get("k")
+    if depth > 14:
+        raise _NoEval("depth")
+    if k == "path":
+        r = n["res"]
+        if "local" in r:
+            if r["local"] in env:
+                return env[r["local"]]
+            raise _NoEval(r["local"])
+        d = r.get("def", "")
+        if "Variant" in (r.get("dk") or ""):
+            return d.split("::")[-1]
+        cs = env.get("__consts__") or {}
+        if d in cs and isinstance(cs[d], int):
+            return cs[d]
+        raise _NoEval(d.split("::")[-1])
+    if k == "call" and "Variant" in (n.get("dk") or "") :
+        return (n.get("fn") or "").split("::")[-1]
+    if k in ("call", "mcall", "field") and env.get("__leaf__") is not None:
+        lv = env["__leaf__"](hirq.render(n))
+        if lv is not None:
+            return lv
+    if k in ("call", "mcall"):
+        g = (env.get("__fns__") or {}).get(n.get("fn"))
+        if g is not None and g.hir:
+            pn = [b[0] if b else None for b in (hirq.pat_binds(p_) for p_ in g.hir["params"])]
+            args = ([n["recv"]] if k == "mcall" else []) + list(n.get("args") or [])
+            if len(pn) == len(args) and None not in pn:
+                env2 = {k_: v_ for k_, v_ in env.items() if k_.startswith("__")}
+                for nm_, a_ in zip(pn, args):
+                    try:
+                        env2[nm_] = xval(a_, env, depth + 1)
+                    except _NoEval:
+                        pass
+                return xval(g.hir["body"], env2, depth + 1)
+    if k == "block" and n.get("e") is not None:
+        env2 = dict(env)
+        for st in n.get("stmts") or []:
+            if st.get("k") == "let" and st["pat"].get("k") == "bind" and st.get("init") is not None:
+                try:
+                    env2[st["pat"]["name"]] = xval(st["init"], env2, depth + 1)
+                except _NoEval:
+                    pass
+        return xval(n["e"], env2, depth + 1)
+    if k == "match":
+        v = xval(n["e"], env, depth + 1)
+        for a in n["arms"]:
+            if _xpat(a["pat"], v):
+                return xval(a["body"], env, depth + 1)
+        raise _NoEval("no arm matches %r" % (v,))
+    if k == "bin" and n["op"] in ("+", "-", "*", "/"):
+        a, b = xval(n["l"], env, depth + 1), xval(n["r"], env, depth + 1)
+        if isinstance(a, int) and isinstance(b, int):
+            return a + b if n["op"] == "+" else a - b if n["op"] == "-" else a * b if n["op"] == "*" else (a // b if b else 0)
+    if k == "cast":
+        return xval(n["e"], env, depth + 1)
+    return _ival(n, {k_: v_ for k_, v_ in env.items() if not isinstance(v_, str)}, {}, depth + 1)
+
+
+def _xpat(p, v):
+    k = p.get("k")
+    if k in ("wild", "bind"):
+        return True
+    if k == "or":
+        return any(_xpat(q, v) for q in p.get("subs") or [])
+    if k == "lit":
+        return p["v"].get("int") == v
+    if k in ("ts", "path", "struct"):
+        return isinstance(v, str) and ((p.get("res") or {}).get("def") or "").split("::")[-1] == v
+    if k == "ref" and p.get("sub"):
+        return _xpat(p["sub"], v)
+    return False
+
